@@ -99,7 +99,9 @@ func TestC07(t *testing.T) {
 		if cls == "both-reject" || len(feats) > 0 {
 			r.Nontrivial(src[strings.LastIndex(src, "func f()"):])
 		}
-		r.Sample(func() any { return map[string]any{"outcome": cls, "statement": src[strings.LastIndex(src, "func f()"):]} })
+		r.Sample(func() any {
+			return map[string]any{"outcome": cls, "statement": src[strings.LastIndex(src, "func f()"):]}
+		})
 	})
 }
 
